@@ -292,6 +292,23 @@ let judge (c : scase) (ops : string list) (impl_results : string list) (written 
              | _ -> ())
           | None -> ())
        | _ -> ());
+      (* C09 on streamed values: a value reported under a register's name must be what the
+         model (= decode_register of the raw value the device sent in THIS run) yields *)
+      (match f with
+       | [ "stream"; _; _; _; _ ] when impl <> "SKIPDEADLINE" ->
+         (match String.split_on_char '|' impl, String.split_on_char '|' model with
+          | _ :: ii :: _, _ :: mi :: _ ->
+            let items x = if x = "" then [] else List.filter_map (fun kv -> match String.index_opt kv '=' with
+                | Some j -> Some (String.sub kv 0 j, String.sub kv (j + 1) (String.length kv - j - 1)) | None -> None)
+                (String.split_on_char '~' x) in
+            let mit = items mi in
+            List.iter (fun (n, v) ->
+                match List.assoc_opt n mit with
+                | Some mv when not (token_eq v mv) ->
+                  report "C09" c.id (Printf.sprintf "op %d: register %s reported as %s, the device's answer in this run decodes to %s" i n v mv)
+                | _ -> ()) (items ii)
+          | _ -> ())
+       | _ -> ());
       if not (result_eq impl model) then begin
         bump fails "MISMATCH";
         if Hashtbl.find fails "MISMATCH" <= 20 then Printf.printf "MISMATCH %s op=%d %s impl=%s model=%s\n" c.id i op impl model
